@@ -33,7 +33,7 @@ Flat == [b \in 0..9 |-> SS \div 10]
 Complete(p) == SumSeq(p) = SS
 
 ItemFor(h) == 1 + ((ChiNum(h, SS) \div 100) % Items)
-QModeFor(h) == <<"center", "edge", "edgehi">>[1 + ((ChiNum(h, SS) \div 100) % 3)]
+QModeFor(h) == <<"center", "edge", "edgehi", "edgebelow">>[1 + ((ChiNum(h, SS) \div 100) % 4)]
 
 \* decision of a matrix in which only the listed items deviate from the benign default
 CntOf(plan) == [i \in 1..Items |-> IF \E e \in plan : e.item = i THEN (CHOOSE e \in plan : e.item = i).pass ELSE SS]
